@@ -130,6 +130,7 @@ const (
 	poisonIP    = "6.6.6.6"  // carried by Z's forged records
 	spoofID     = "6.6.6.7"  // carried by the wrong-ID datagram
 	spoofQ      = "6.6.6.8"  // carried by the wrong-question datagram
+	spoofFlood  = "6.6.6.13" // carried by each of a run of twelve wrong-ID datagrams
 	spoofTwoQ   = "6.6.6.12" // carried by the two-question datagram (victim's question first, the real one second)
 	spoofIDQ    = "6.6.6.9"  // wrong ID and wrong question
 	spoofTCP    = "6.6.6.10" // wrong ID on the TCP retry (after a truncated UDP reply)
@@ -309,6 +310,25 @@ func (w *world) preDatagrams(pre string, req *dns.Msg) [][]byte {
 	q := req.Question[0]
 	var m *dns.Msg
 	switch pre {
+	case "flood":
+		var out [][]byte
+		for i := 1; i <= 12; i++ {
+			f := new(dns.Msg)
+			f.SetReply(req)
+			f.Id = req.Id + uint16(i)*257
+			f.Authoritative = true
+			f.Answer = []dns.RR{mustRR(lc(q.Name) + " 300 IN A " + spoofFlood)}
+			if opt := req.IsEdns0(); opt != nil {
+				o := &dns.OPT{Hdr: dns.RR_Header{Name: ".", Rrtype: dns.TypeOPT}}
+				o.SetUDPSize(1232)
+				o.SetDo(opt.Do())
+				f.Extra = append(f.Extra, o)
+			}
+			if b, err := f.Pack(); err == nil {
+				out = append(out, b)
+			}
+		}
+		return out
 	case "wrongid":
 		m = new(dns.Msg)
 		m.SetReply(req)
@@ -499,7 +519,7 @@ func (w *world) symbolOf(ip string) string {
 		return "t_www"
 	case poisonIP, trapServed:
 		return "poison"
-	case spoofID, spoofQ, spoofIDQ, spoofTCP, spoofTwoQ:
+	case spoofID, spoofQ, spoofIDQ, spoofTCP, spoofTwoQ, spoofFlood:
 		return "spoof"
 	}
 	for i := range w.moves {
@@ -651,6 +671,8 @@ func spoofMarks(r *dns.Msg) []string {
 					out = append(out, "tcpwrongid")
 				case spoofTwoQ:
 					out = append(out, "twoq")
+				case spoofFlood:
+					out = append(out, "flood")
 				}
 			}
 		}
